@@ -50,3 +50,18 @@ Definition example_setup : setup :=
      theta_s_e := 0; theta_i_e := 0; n_s := fun _ => 1.7; n_i := fun _ => 1.7;
      pm_re := fun _ _ => 1; pm_im := fun _ _ => 0; pm_singles := fun _ _ => 1 |}.
 
+
+(* src/spdc/hom.rs:hom_two_source_rate_series, one channel: Σ |φ1·φ2 − φ1'·φ2'·phase|² / 4 / (norm1 · norm2) where every
+   product has one factor from source 1 and one from source 2, norm1 = Σ|jsa of source 1|², norm2 = Σ|jsa of source 2|².
+   A term is ((p1, p2), (q1, q2), u); n1 / n2 are the amplitude lists of the two sources. *)
+Definition cmul (a b : R * R) : R * R := (fst a * fst b - snd a * snd b, fst a * snd b + snd a * fst b).
+Definition cnorm2 (z : R * R) : R := fst z * fst z + snd z * snd z.
+Definition hom2_term (t : ((R * R) * (R * R)) * ((R * R) * (R * R)) * (R * R)) : R :=
+  let a := cmul (fst (fst (fst t))) (snd (fst (fst t))) in
+  let b := cmul (cmul (fst (snd (fst t))) (snd (snd (fst t)))) (snd t) in
+  cnorm2 (fst a - fst b, snd a - snd b).
+Definition hom2_rate_model (l : list (((R * R) * (R * R)) * ((R * R) * (R * R)) * (R * R))) (n1 n2 : list (R * R)) : R :=
+  sum_list (map hom2_term l) / 4 / (sum_list (map cnorm2 n1) * sum_list (map cnorm2 n2)).
+(* source 1 scaled by c1, source 2 by c2 *)
+Definition scale_term2 (c1 c2 : R) (t : ((R * R) * (R * R)) * ((R * R) * (R * R)) * (R * R)) :=
+  ((cscale c1 (fst (fst (fst t))), cscale c2 (snd (fst (fst t)))), (cscale c1 (fst (snd (fst t))), cscale c2 (snd (snd (fst t)))), snd t).
